@@ -312,7 +312,13 @@ def judge(h: Hier, d: Dict[str, Any]) -> List[Tuple[str, str]]:
             pnames = sorted(x.split("/", 1)[1] for x in r["props"])
             if targets != pnames:
                 twice = sorted({t for t in targets if targets.count(t) > 1})
-                if twice and sorted(set(targets)) == pnames:
+                # a repetition the modeller wrote (`self.x = x` twice in one `__init__`) is copied, not caused, by in-lining
+                written = sorted(
+                    t for t in twice if any([x for k, x in o["ctor"] if k == "A"].count(t) > 1 for o in h if o["name"] == n or o["name"] in anc[n])
+                )
+                if twice and twice == written and sorted(set(targets)) == pnames:
+                    bad.append(("C05:ctor-source-assigns-twice", f"the constructor source assigns {written} twice and the in-lined constructor of {n} keeps both: {r['inl']}"))
+                elif twice and sorted(set(targets)) == pnames:
                     bad.append(("C05:ctor-assigned-twice", f"in-lined constructor of {n} assigns {twice} more than once: {r['inl']}"))
                 else:
                     bad.append(("C05:ctor-assignments", f"in-lined constructor of {n} assigns {targets}, the properties are {pnames}"))
@@ -642,6 +648,10 @@ def boundary(ctx: Ctx) -> Iterator[Tuple[Hier, str]]:
     yield [mk_class("C", ["B"], props=0, invs=1), mk_class("B", ["A"], props=0, invs=1), mk_class("A", [], props=0, invs=1, wmt=True, abstract=True)], "boundary"
     # the second parent alone carries with_model_type
     yield canonical_ctors([A(), mk_class("B", [], wmt=True), mk_class("C", ["A", "B"])]), "boundary"
+    # known finding C05-F1: the modeller assigns an own property twice; accepted, both assignments survive
+    h = canonical_ctors([A(), mk_class("B", ["A"])])
+    h[0]["ctor"].append(["A", "a_p0"])
+    yield h, "boundary"
     # duplicated invariant description along a chain and inside one class
     h = canonical_ctors([A(invs=1), mk_class("B", ["A"], invs=1)])
     h[1]["invs"] = ["A inv0"]
